@@ -8,6 +8,11 @@ drives it) and `Qx/Xml/Parse.lean` (`unesc`, `parse`, `view` — `QDomDocument::
 restricted to the writer's output language).  Both are compared with the real Qt on every run by
 `harness/cxx/xmllayer.cpp`.  Strings are lists of Unicode scalar values; every theorem is for
 strings and trees of any size.
+
+Since repo commit 6d0fec7 text reaches the wire in two ways (Qx/Xml/Writer.lean): through
+`writeCharacters` (`escText`, CR literal) or through `writeXmlTextElement(w, name, value)` (`escTextCr`,
+CR as `&#13;`).  `WNode`/`renderW` carry that choice per text node; `render` is the case "all through
+writeCharacters".  Every statement below holds for both ways.
 -/
 namespace Qx.C01Xml
 open Qx.Xml
@@ -44,6 +49,17 @@ theorem unesc_escAttr_iff (s : Str) : unesc (escAttr s) = s ↔ ∀ c ∈ s, leg
 
 example : unesc (escText ['a', Char.ofNat 1, 'b']) = ['a', 'b'] := by decide
 
+/-- Text written by `writeXmlTextElement(w, name, value)` (CR as `&#13;`): un-escaping gives the string
+minus the characters XML cannot carry, exactly as for `writeCharacters`. Unconditional. -/
+theorem unesc_escTextCr_filter (s : Str) : unesc (escTextCr s) = s.filter legalChar :=
+  Qx.Xml.unesc_escTextCr s
+
+/-- … and text made of XML-legal characters (CR included) comes back exactly. -/
+theorem unesc_escTextCr (s : Str) (h : ∀ c ∈ s, legalChar c = true) : unesc (escTextCr s) = s := by
+  rw [unesc_escTextCr_filter, filter_legal_of_all h]
+
+example : escTextCr "a\r\n<".toList = "a&#13;\n&lt;".toList := by decide
+
 example : ∀ c ∈ "<>&\"' \t\r\n]]>&#60;</a>é😀".toList, legalChar c = true := by decide
 example : unesc (escText "<>&\"' \t\r\n]]>&#60;</a>é😀".toList) = "<>&\"' \t\r\n]]>&#60;</a>é😀".toList := by decide
 example : unesc (escAttr "<>&\"' \t\r\n]]>&#60;</a>é😀".toList) = "<>&\"' \t\r\n]]>&#60;</a>é😀".toList := by decide
@@ -56,6 +72,9 @@ theorem escText_no_lt (s : Str) : '<' ∉ escText s := flatMap_escChar_no_meta f
 theorem escText_no_gt (s : Str) : '>' ∉ escText s := flatMap_escChar_no_meta false s '>' (by simp)
 /-- Escaped text never contains a double quote. -/
 theorem escText_no_quote (s : Str) : '"' ∉ escText s := flatMap_escChar_no_meta false s '"' (by simp)
+/-- The same three for text written by `writeXmlTextElement(w, name, value)`. -/
+theorem escTextCr_no_meta (s : Str) : '<' ∉ escTextCr s ∧ '>' ∉ escTextCr s ∧ '"' ∉ escTextCr s :=
+  ⟨escMarked_no_meta _ '<' (by simp), escMarked_no_meta _ '>' (by simp), escMarked_no_meta _ '"' (by simp)⟩
 /-- An escaped attribute value never contains the double quote that would end it. -/
 theorem escAttr_no_quote (s : Str) : '"' ∉ escAttr s := flatMap_escChar_no_meta true s '"' (by simp)
 /-- An escaped attribute value never contains `<`. -/
@@ -113,6 +132,41 @@ theorem render_shape_indep (n : Str) (as : List (Str × Str)) (ks : List Node)
     (h : NamesOK (.elem n as ks)) :
     (parse (render (.elem n as ks))).map shape = some (shape (view (.elem n as ks))) := by
   rw [parse_render_view n as ks h, Option.map_some]
+
+/-- The same for trees whose text nodes are written either way (`WNode`, `renderW`): what is read
+back is `view` of the tree, whichever call wrote each text node. -/
+theorem parse_renderW_view (n : Str) (as : List (Str × Str)) (ks : List WNode)
+    (h : NamesOK (WNode.erase (.elem n as ks))) :
+    parse (renderW (.elem n as ks)) = some (view (WNode.erase (.elem n as ks))) :=
+  Qx.Xml.parse_renderW_view n as ks h
+
+/-- … hence the element structure is that of the tree, for all payloads, either way of writing text. -/
+theorem renderW_skeleton_indep (n : Str) (as : List (Str × Str)) (ks : List WNode)
+    (h : NamesOK (WNode.erase (.elem n as ks))) :
+    (parse (renderW (.elem n as ks))).map skeleton = some (skeleton (WNode.erase (.elem n as ks))) := by
+  rw [parse_renderW_view n as ks h, Option.map_some, skeleton_view]
+
+/-- … and an `XmlSafe` tree is read back exactly, either way of writing text. -/
+theorem parse_renderW (n : Str) (as : List (Str × Str)) (ks : List WNode)
+    (h : XmlSafe (WNode.erase (.elem n as ks))) :
+    parse (renderW (.elem n as ks)) = some (WNode.erase (.elem n as ks)) := by
+  rw [parse_renderW_view n as ks (namesOK_of_wellFormed _ h), view_of_wellFormed _ h]
+
+/-- A reader that applies the line-end normalisation of XML 1.0 §2.11 (`parseStd`; QXmlStreamReader,
+expat, libxml2 — not Qt 5.15's QDom) reads the same tree, CR included, provided no text node puts a
+literal CR on the wire (`crSafe`: written by `writeXmlTextElement(w, name, value)`, or CR-free).
+Attribute values never do (`escAttr` writes `&#13;`). -/
+theorem conforming_reader_reads_the_same (n : Str) (as : List (Str × Str)) (ks : List WNode)
+    (h : NamesOK (WNode.erase (.elem n as ks))) (hc : crSafe (.elem n as ks) = true) :
+    parseStd (renderW (.elem n as ks)) = some (view (WNode.erase (.elem n as ks))) :=
+  parseStd_renderW_view n as ks h hc
+
+/-- `crSafe` is needed: a CR written by `writeCharacters` is read as LF by such a reader (and kept by QDom). -/
+example : parseStd (render (.elem "a".toList [] [.text "x\ry".toList])) = some (.elem "a".toList [] [.text "x\ny".toList])
+    ∧ parse (render (.elem "a".toList [] [.text "x\ry".toList])) = some (.elem "a".toList [] [.text "x\ry".toList]) := by
+  decide +kernel
+example : parseStd (renderW (.elem "a".toList [] [.text true "x\r\ny".toList])) = some (.elem "a".toList [] [.text "x\r\ny".toList]) := by
+  decide +kernel
 
 /-- The one place where the writer does NOT escape: Qt writes the argument of
 `writeDefaultNamespace` / `writeNamespace` verbatim.  qxmpp passes only compile-time constants there
